@@ -152,3 +152,16 @@ LEMMAS["complete_linkage_monotone"] = dict(
         {"induct": ("i", "0", "len(points)", "r2[@] <= r1[@] and implies(r2[@] == r1[@], A1[@] <= A2[@])")}],
     goal=["r2[len(points)-1] + 1 <= r1[len(points)-1] + 1"],
 )
+
+# every label up to the last one occurs (discrete intermediate value): what filter_clusters needs from any linkage to index the first
+# member of each cluster; shape facts only (labels start at 0 and grow by 0 or 1)
+for _name in ("single", "complete", "centroid", "average"):
+    LEMMAS["%s_linkage_labels_onto" % _name] = dict(
+        context="kneeliverse.clustering.%s_linkage" % _name, owner="C11", mode="R",
+        vars={"points": "Seq[Tup[Real,Real]]", "t1": "Real", "r1": "Seq[Int]"},
+        hyps=["len(points) >= 2", "forall2(0, len(points), lambda a, b: points[a][0] < points[b][0])", "0 < t1"] + _post(_name, "r1", "t1"),
+        steps=[{"induct": ("q", "0", "len(points)", "forall(0, r1[@] + 1, lambda v: exists(0, @ + 1, lambda p: r1[p] == v))"), "at": ["len(points)-1"]}],
+        goal=["forall(0, r1[len(points)-1] + 1, lambda v: exists(0, len(points), lambda p: r1[p] == v))",
+              "r1[0] == 0", "forall(1, len(points), lambda i: r1[i] - r1[i-1] == 0 or r1[i] - r1[i-1] == 1)",
+              "forall2(0, len(points), lambda p, q: r1[p] <= r1[q])"],
+    )
